@@ -281,6 +281,7 @@ func TestC20(t *testing.T) {
 		}
 		cfg.ReopenWeight = 14
 		failg := func(v *drv.Violation) {
+			drv.SetFailing()
 			log := g.Log
 			g.Cleanup()
 			failCase(rt, replayDoc{Property: "C20", Kind: "history", Ops: log}, v)
